@@ -59,7 +59,8 @@ OnCend(e) ==
     \cup Chk(e.constant = 0 \/ e.max_node_req <= e.constant, "C10", "NodeRequestWithinConstant", <<e.name, e.max_node_req, e.constant>>))
 
 \* a pool created with the library's node size constant serves the container
-OnPoolrun(e) == Result(st, Chk(e.r = "ok", "C10", "PoolWithNodeSizeConstantServes", <<e.cont, e.tsize, e.talign, e.constant, e.r>>))
+\* ... and every element it holds lies at an address its type is aligned for
+OnPoolrun(e) == Result(st, Chk(e.r = "ok" /\ e.mis = 0, "C10", "PoolWithNodeSizeConstantServes", <<e.cont, e.pool, e.tsize, e.talign, e.constant, e.r, e.mis>>))
 
 Apply(e) ==
   CASE e.e = "cbox" -> Result([st EXCEPT !.prop = e.prop, !.single = e.single], Chk(e.ok, "X", "UnknownContainer", <<e.name>>))
